@@ -82,9 +82,12 @@ func (t *Transcript) ComputeChallenge(challengeID string) ([]byte, error) {
 		return nil, errChallengeNotFound
 	}
 
-	// if the challenge was already computed we return it
+	// if the challenge was already computed we return it (a copy: the caller must not be able to
+	// modify the stored value, which is also hashed into the next challenge)
 	if challenge.isComputed {
-		return challenge.value, nil
+		res := make([]byte, len(challenge.value))
+		copy(res, challenge.value)
+		return res, nil
 	}
 
 	// reset before populating the internal state
